@@ -101,7 +101,7 @@ def analyse_batch(job):
         name = f"s{i:04d}.{rnd.ext}"
         with open(os.path.join(src_dir, name), "w") as f:
             f.write(text)
-        rng = random.Random(hash((label, i)) & 0xffffffff)
+        rng = random.Random(__import__("zlib").crc32(f"{label}:{i}".encode()))
         vecs = gen_cf.vectors(domains, VEC_CAP, rng) if domains else [[]]
         progs.append((name, sk, text, [rnd.conv_vector(v, sk) for v in vecs]))
     st = lianrun.write_settings(os.path.join(sc, f"c04st_{tag}"))
